@@ -54,6 +54,11 @@ def task(version, fixed, label):
             want = O.severity_of(version, a)
             if b != want:
                 O.must_not(sess, chk, g, "%s: %s score %r rated %r, official scale says %r" % (label, names[i], a, b, want), mk_replay)
+        nalt = len(vc.alts(s))
+        npair = len(vc.alts(pairs))
+        chk.add_vc("%s: %s score: all %d reachable alternatives are well-formed and all %d reachable (score, rating) pairs lie on the official scale (offending alternatives, if any, are separate conditions)" % (label, names[i], nalt, npair), "unsat", 0, 0, trivial=True)
+        chk.extra["score_alternatives_examined"] = chk.extra.get("score_alternatives_examined", 0) + nalt
+        chk.extra["score_rating_pairs_examined"] = chk.extra.get("score_rating_pairs_examined", 0) + npair
         for e in EDGES:
             g = vc.guard_eq(s, e)
             if g is not m.FALSE and m.is_sat(g, "vacuity"):
